@@ -250,7 +250,11 @@ class C13(Base):
         self.clauses["C13.starts"] += 1
         self.clauses["C13.total"] += 1
         if len(b.bar) != len(mb.entries):
-            # the model lost track (an op of another clause failed); resynchronise narrowly
+            if not self.failures:
+                # nothing was reported so far, so no operation on *this* bar explains the difference: entries
+                # appeared or vanished although "a placement appends one entry" and "a refused one changes nothing"
+                self.fail("C13.append", "after %s: the bar holds %d entries, the operations applied to it account for %d" % (what, len(b.bar), len(mb.entries)), **feats)
+            # the model lost track (a failure was reported already); resynchronise narrowly
             self.probes["model_resync"] += 1
             return
         acc = Fraction(0)
@@ -327,6 +331,9 @@ class C13(Base):
                 self.clauses["C13.meter"] += 1
                 if abs(Fraction(mb.obj.length) - mb.length) > Fraction(1, 10 ** 9):
                     self.fail("C13.meter", "Bar(meter=%r) has length %r" % (tuple(meter), mb.obj.length), op="bar")
+                if self.bars[:-1]:
+                    self.probes["bar_created_after_others_have_history"] += 1
+                self.invariants(mb, "Bar()", {"op": "bar"})  # a new bar is empty, whatever happened to other bars before
         self.note_outcome("bar", {"ok": "accepted", "raised": "raised", "stall": "stall"}[outcome], [m.state() for m in self.bars])
 
     def do_set_meter(self, op):
@@ -650,6 +657,9 @@ def gen_c13(rng, tier):
             ops.append({"op": "set_meter", "bar": b, "meter": rng.choice(VALID_METERS + INVALID_METERS + [[0, 0]] + BIG_VALID) if rng.random() < 0.6 else rng.choice(NEAR_POW2)})
         elif mode == "meters" and r < 0.6:
             ops.append({"op": "bar", "key": "C", "meter": rng.choice(VALID_METERS + INVALID_METERS + BIG_VALID) if rng.random() < 0.6 else rng.choice(NEAR_POW2)})
+        elif rng.random() < 0.04:
+            ops.append({"op": "bar", "key": rng.choice(world.ALL_KEYS), "meter": rng.choice(VALID_METERS)})  # one more bar, after the others have a history
+            nb += 1
         elif mode == "edit" and r < 0.25:
             ops.append({"op": "setitem", "bar": b, "index": rng.randrange(8), "content": gen_form(rng), "neg": rng.random() < 0.4})
         elif mode == "edit" and r < 0.5:
@@ -720,6 +730,30 @@ def diatonic_chord(numeral, key):
     ns = key_notes(key)
     k = 4 if m.group(2) else 3
     return [ns[(deg + 2 * j) % 7] for j in range(k)]
+
+
+OWN_CHORDS = {
+    "": ["3", "5"], "M": ["3", "5"], "m": ["b3", "5"], "dim": ["b3", "b5"], "aug": ["3", "#5"], "+": ["3", "#5"],
+    "7": ["3", "5", "b7"], "dom7": ["3", "5", "b7"], "m7": ["b3", "5", "b7"], "M7": ["3", "5", "7"], "mM7": ["b3", "5", "7"], "m/M7": ["b3", "5", "7"],
+    "dim7": ["b3", "b5", "bb7"], "m7b5": ["b3", "b5", "b7"], "sus4": ["4", "5"], "sus2": ["2", "5"], "sus": ["4", "5"],
+    "6": ["3", "5", "6"], "M6": ["3", "5", "6"], "m6": ["b3", "5", "6"], "5": ["5"], "7b5": ["3", "b5", "b7"],
+}
+
+
+def own_chord(sym):
+    """the note names of the commonest chord symbols, spelled by letter step and semitone size from the
+    root (own interval model, see expect_transpose); None for anything else"""
+    import re
+
+    m = re.match(r"^([A-G](?:#{0,2}|b{0,2}))(.*)$", sym)
+    if not m or m.group(2) not in OWN_CHORDS:
+        return None
+    root = m.group(1)
+    out = [root]
+    for sh in OWN_CHORDS[m.group(2)]:
+        letter, acc, _o, _p = expect_transpose(root, 4, sh, True)
+        out.append(letter + ("#" * acc if acc > 0 else "b" * (-acc)))
+    return out
 
 
 class MNC(object):
@@ -1013,6 +1047,13 @@ class C12(Base):
                     names = chords.from_shorthand(op["sh"])
                 except Exception:
                     names = None
+                own = own_chord(op["sh"])
+                if own is not None:
+                    # the commonest symbols are judged against an own spelling of the chord, not the library's answer
+                    self.probes["chord_checked_against_own_interval_model"] += 1
+                    if names is not None and list(names) != own:
+                        self.fail("C12.constructors", "chord symbol %r: the notes handed to the container are %s, the chord is %s" % (op["sh"], names, own), kind="chord", theory=True)
+                    names = own
                 r = m.obj.from_chord(op["sh"]) if op.get("alias") else m.obj.from_chord_shorthand(op["sh"])
             elif kind == "interval":
                 r = (m.obj.from_interval if op.get("alias") else m.obj.from_interval_shorthand)(op["start"], op["sh"], op.get("up", True))
@@ -1175,7 +1216,7 @@ def gen_c12(rng, tier):
         elif r < 0.8:
             ops.append({"op": "add_container", "nc": i, "other": rng.randrange(nn), "via": rng.choice(["add_notes", "plus"])})
         elif r < 0.84:
-            ops.append({"op": "bad_add", "nc": i, "bad": rng.choice(["H", "C-x", ["C", "E", "H"], "", [["C"]], 5]), "via": rng.choice(["add_note", "add_notes"])})
+            ops.append({"op": "bad_add", "nc": i, "bad": rng.choice(["H", "C-x", ["C", "E", "H"], "", [["C"]], 5, [["C", 4], ["H", 5]], [["G", 3], ["C", 5], ["X", 2]], ["E", "Hb", "G"]]), "via": rng.choice(["add_note", "add_notes"])})
         elif r < 0.87:
             ops.append({"op": "empty", "nc": i})
         else:
@@ -1451,6 +1492,23 @@ class C14(Base):
         else:
             self.fail("C14.reject_atomic", "rejected %s left %d bars (model %d)" % (what, nb, len(t.bars)), **feats)
             self.resync(t)
+
+    def do_other_instrument(self, op):
+        """somebody else's instrument: another, unattached instrument object of some class gets its own range and is
+        asked about notes.  No track of this history is involved, so nothing about them may change."""
+        import mingus.containers.instrument as I
+
+        k = op.get("instr", "plain")
+        try:
+            ins = {"plain": I.Instrument, "piano": I.Piano, "guitar": I.Guitar, "midi": lambda: I.MidiInstrument("Violin")}[k]()
+            lo, hi = op["range"]
+            ins.set_range((lo, hi))
+            ins.note_in_range(op.get("ask", "C-4"))
+            out = "ok"
+        except Exception as e:
+            out = type(e).__name__
+        self.probes["another_instrument_given_its_own_range"] += 1
+        self.trace.ev("other_instrument", k, op["range"], out)
 
     def do_add_notes(self, op):
         t = self.pick(op["track"])
@@ -1840,6 +1898,8 @@ def gen_c14(rng, tier):
                 ops.append({"op": "comp_add_note", "comp": 0, "content": gen_c14_form(rng, 0.0), "via": rng.choice(["add_note", "plus"])})
             else:
                 ops.append({"op": "select", "comp": 0, "sel": [rng.randrange(4) for _ in range(rng.randrange(0, 4))]})
+        elif rng.random() < 0.04:
+            ops.append({"op": "other_instrument", "instr": rng.choice(["plain", "plain", "piano", "guitar", "midi"]), "range": rng.choice([["C-5", "D-7"], ["C-3", "C-4"], ["E-4", "E-4"], ["A-0", "C-2"], ["G-6", "C-8"]]), "ask": rng.choice(["C-4", "C-9", "A-0"])})
         elif r < 0.7:
             ops.append({"op": "add_notes", "track": t, "content": gen_c14_form(rng, cfg["out_p"]), "v": rng.choice(vals) if rng.random() < 0.85 else None})
         elif r < 0.8:
